@@ -50,6 +50,18 @@ CHECKS['C12'] = dict(cat='other', engine='symnp + z3 table encoding',
     note='versions bounded to [-2, V], 2 keys, K writes; capture check judged for glue.core.* keys only (viewer/dialog classes '
          'redirected to glue_qt are reported in evidence, not judged)')
 
+CHECKS['C08'] = dict(cat='other', engine='symnp',
+    technique='symbolic execution of the real ROI classes on symbolic points/parameters + SMT (linear and nonlinear real arithmetic)',
+    text='Rectangle (all listed angles incl. multiples and near-multiples of pi/2, symbolic bounds), ellipse (listed radii, '
+         'symbolic centre; symbolic radii in the thorough tier), circle, annulus, x/y ranges, polygons (triangle, square, closed, '
+         'concave, collinear vertex; symbolic translation) and projected 3-d regions: points are parametrised in the region frame '
+         'and mapped forward, z3 proves inside => contained and outside => not contained outside a relative boundary band, '
+         'for every array layout (1-d, row, column, 0-stride grid), after move_to / rotate_to / copy / save-restore, and that '
+         'to_polygon vertices lie on the true boundary.', ref='5/C08',
+    note=NOTE_SYM + '; angles are a listed set (cos/sin rounded to 24-bit dyadic rationals inside the solver, covered by the band); '
+         'S-path: matplotlib Path.contains_points modelled by a crossing-number test (real routine on replay); chunk limit '
+         'clamped to 2 for the projected ROI')
+
 NOT_YET = {}
 
 NOT_APPLICABLE = {
